@@ -11,8 +11,8 @@ CHECKS = {
         "category": "proof",
         "text": "Lean 4 theorems about the framing model (exact-count read equals the read on the concatenated stream for every segmentation; frame/read round trip for every message the format carries and any number of messages; announcement detection; signed error codes), tied to the Go code by a correspondence run over the real mode/transport code incl. a real loopback TCP connection.",
         "design_ref": "DESIGN.md §7 C08",
-        "note": "Trusted: Lean kernel; axioms propext/Classical.choice/Quot.sound at most; the harness and its spec framer; that tcpConn.Read is exact-count (observed over loopback); kernel TCP segmentation itself is not controlled.",
-        "technique": "Lean 4 proof (induction over segment lists and message lists) + differential correspondence Go vs Lean driver",
+        "note": "Trusted: Lean kernel; axioms propext/Classical.choice/Quot.sound at most; the harness and its spec framer; that tcpConn.Read is exact-count (observed over loopback); kernel TCP segmentation itself is not controlled. The abridged length arithmetic (len/WordLen, byte(w), byte(w>>8), byte(w>>16)) is translated from the working tree (harness/cmd/arithfacts -> Gen/Arith.lean) and proved equal to leBytes (len/4) 3 (abridged_length_bytes). Sequences on one goroutine: a message of 2^18..2^20 (thorough 2^24) bytes, then long-form frames (seed C08-m18).",
+        "technique": "Lean 4 proof (induction over segment lists and message lists) + differential correspondence Go vs Lean driver + go/parser translation of the length arithmetic into BitVec 64 definitions (regenerated every run), proved equal to the Nat model (Props/Arith.lean)",
     },
 }
 
